@@ -95,8 +95,22 @@ def walk(root, first_use=False):
             elif name not in uses:
                 uses[name] = x
 
+    LINKS = {"NamedURL": "ext-link-label", "URL": "ext-link-label", "ArticleLink": "int-link-label",
+             "NamespaceLink": "int-link-label", "InterwikiLink": "int-link-label", "SpecialLink": "int-link-label",
+             "Link": "int-link-label"}
+    inlink = [""]
+
     def rec(node, secs, depth, ref, tabs):
         n = type(node).__name__
+        if n in LINKS and node.children:
+            prev, inlink[0] = inlink[0], LINKS[n]
+            try:
+                return rec2(node, n, secs, depth, ref, tabs)
+            finally:
+                inlink[0] = prev
+        return rec2(node, n, secs, depth, ref, tabs)
+
+    def rec2(node, n, secs, depth, ref, tabs):
         if id(node) in skip:
             return
         if id(node) in moved_to:
@@ -107,13 +121,13 @@ def walk(root, first_use=False):
             return
         if n == "Text":
             for w in word.findall(node.caption or ""):
-                out.append((w, secs, depth, ref, bool(tabs)))
+                out.append((w, secs, depth, ref, bool(tabs), inlink[0]))
                 for t in tabs:
                     t[2].append(w)
             return
         if n in ("ArticleLink", "NamespaceLink", "InterwikiLink", "SpecialLink", "Link") and not node.children:
             for w in word.findall((node.target or "").replace("_", " ").split(":")[-1]):
-                out.append((w.lower(), secs, depth, ref, bool(tabs)))
+                out.append((w.lower(), secs, depth, ref, bool(tabs), "target-shown"))
                 for t in tabs:
                     t[2].append(w.lower())
             return
@@ -174,6 +188,8 @@ def _compare(before, tables_before, after):
         if missing:
             b = next(x for x in before if x[0] == missing[0])
             where = "ref" if b[3] else ("table" if b[4] else ("item" if b[2] else ("section" if b[1] else "intro")))
+            if len(b) > 5 and b[5]:
+                where += ":" + b[5]
             return ("words-dropped:in-" + where, "%d visible words lost by cleaning, first %r (section %r, item depth %d, ref %d)" % (
                 len(missing), missing[0], b[1], b[2], b[3]))
         extra = [w for w in aw if w not in bs]
